@@ -27,7 +27,8 @@ Definition d_leaf (t : tr) : option leaf :=
   end.
 Definition d_flags (t : tr) : option flags :=
   match t with
-  | L [a; b; c] => do a' <- dbool a; do b' <- dbool b; do c' <- dbool c; Some (mkFlags a' b' c')
+  | L [a; b; c] => do a' <- dbool a; do b' <- dbool b; do c' <- dbool c; Some (mkFlags a' b' c' 0)
+  | L [a; b; c; s] => do a' <- dbool a; do b' <- dbool b; do c' <- dbool c; do s' <- dN s; Some (mkFlags a' b' c' s')
   | _ => None
   end.
 Definition d_kind (t : tr) : option kind :=
